@@ -661,6 +661,48 @@ func busGen(c *ctx) {
 		x.do("snap")
 		c.class(fmt.Sprintf("seq/%02x/lcd%d", ct.typ, lcd))
 	}
+	// Part C: timer phases.  The timer registers are written in every phase of the overflow / reload sequence (the
+	// cycle of the overflow, the cycle(s) TIMA reads 00, the reload cycle, the cycle after), each write between two
+	// full snapshots and followed by one more after the next timer tick.
+	nPhase := 400
+	if c.thorough() {
+		nPhase = 6000
+	}
+	for q := 0; q < nPhase; q++ {
+		r := c.rng
+		if x.do("reset 00 00 00 0") != "ok" {
+			continue
+		}
+		tac := 4 | []int{1, 1, 1, 2, 3, 0}[r.intn(6)]
+		x.do(fmt.Sprintf("w ff06 %02x", r.byte()))
+		x.do(fmt.Sprintf("w ff07 %02x", tac))
+		x.do(fmt.Sprintf("w ff05 %02x", 0xfc+r.intn(4)))
+		pre := r.intn(20)
+		for j := 0; j < pre; j++ {
+			x.do("tt")
+		}
+		edge := r.intn(4)
+		switch edge {
+		case 1:
+			x.do("w ff04 00")
+		case 2:
+			x.do(fmt.Sprintf("w ff07 %02x", r.intn(4)))
+		}
+		mid := r.intn(4)
+		for j := 0; j < mid; j++ {
+			x.do("tt")
+		}
+		x.do("snap")
+		a := []int{0xff06, 0xff06, 0xff05, 0xff04, 0xff07}[r.intn(5)]
+		x.do(fmt.Sprintf("w %04x %02x", a, 1+r.intn(255)))
+		x.do("snap")
+		x.do("tt")
+		x.do("snap")
+		x.do("tt")
+		x.do("snap")
+		c.class(fmt.Sprintf("timer-phase/tac%d/edge%d/%04x", tac&3, edge, a))
+	}
+	c.notes["timer_phase_cases"] = nPhase
 	c.notes["random_sequences"] = nSeq
 	c.notes["frame_checks_on_real_code"] = x.frames
 	c.notes["frame_violations_on_real_code"] = x.viol
